@@ -222,6 +222,9 @@ def build(ctx):
     # rows are laid out by the aggregator that is RUNNING, the header by the one that created the file: both must be the same layout,
     # which is the constructor's header check (C17), regenerated here
     include_stage(ctx, "C17")
+    # the header is fixed when the aggregator is built; results must not grow metrics afterwards (shared default metric list: C15's
+    # constructor frame) and queries must not change the loaded table (C20's query frame)
+    include_stage(ctx, "C15", only=lambda mod, sub: [sub.unit("ctor_defaults", lambda: mod.unit_ctor_defaults(sub))])
     ctx.add_bounded("c18-roundtrip", "c18.bounded")
 
 
